@@ -115,7 +115,8 @@ func TestVF_C15_InProcess(t *testing.T) {
 			admin = append(admin, m.Name)
 		}
 	}
-	lists := [][]string{nil, admin}
+	// (a list that names no real method - blank entries - still is a list: everything else is refused)
+	lists := [][]string{nil, admin, {""}, {" "}, {"", "\t"}}
 	for _, a := range admin {
 		lists = append(lists, []string{a})
 		// near misses must not admit the method
